@@ -242,6 +242,10 @@ class Summariser:
             return False
         if fn.is_property:
             return False
+        if fn.cls is not None and fn.cls.name == "Converter" and {"record", "into"} <= {p.name for p in fn.params}:
+            # the merger under another name (``_merge`` renamed / fused with the indexing): the rules address it
+            # as a function of its own (who may change owned records, frame and cover of the merge)
+            return False
         # a decorator changes what calling the function means (memoisation, context managers, ...)
         # (memoisation of a pure function does not: its hazards - I/O, shared mutable results, stale
         # derived values - are judged by dedicated rules that look at the decorator itself)
@@ -938,11 +942,24 @@ class _Builder:
         inl = self.inline_call(t, p, st.lineno) if op(t) == "call" else None
         if inl is not None:
             return [q for q, _ in inl]
+        if op(t) == "call" and t[1] == ("builtin", "setattr") and len(t[2]) == 3 and not t[3] and is_const(t[2][1]) and isinstance(t[2][1][1], str):
+            # setattr(x, "name", v)  is  x.name = v
+            p.events.append(self.E("store", st.lineno, ("attr", t[2][0], t[2][1][1]), t[2][2]))
+            return [p]
         p.events.append(self.E("expr", st.lineno, t))
         if isinstance(v, ast.Call) and isinstance(v.func, ast.Attribute) and v.func.attr == "sort" and isinstance(v.func.value, ast.Name) and not v.args and v.func.value.id in p.env and op(t) == "call":
             # xs.sort(key=..)  leaves the name bound to what sorted(xs, key=..) would be
             p.env[v.func.value.id] = ("call", ("builtin", "sorted"), (t[1][1],), t[3])
         return [p]
+
+    def _is_callable_object(self, t) -> bool:
+        if op(t) in ("bound", "lambda", "func", "cls"):
+            return True
+        fn = self.fn
+        if op(t) == "attr" and fn is not None and fn.cls is not None and fn.self_name and t[1] == ("param", fn.self_name):
+            m = self.model.find_method(fn.cls, t[2])
+            return m is not None and not m.is_property and not getattr(m, "is_cached_property", False)
+        return False
 
     def _lift_ifexp(self, value):
         """A conditional expression nested in displays / call arguments / operators of ``value`` is lifted to
@@ -1104,7 +1121,7 @@ class _Builder:
             lifted = self._lift_ifexp(st.value)
             if lifted is not st.value:
                 st = ast.copy_location(ast.Assign(targets=st.targets, value=lifted), st)
-        if isinstance(st.value, ast.IfExp) and len(st.targets) == 1 and isinstance(st.targets[0], ast.Name) and not _or_form(st.value):
+        if isinstance(st.value, ast.IfExp) and len(st.targets) == 1 and (isinstance(st.targets[0], ast.Name) or (isinstance(st.targets[0], ast.Attribute) and isinstance(st.targets[0].value, ast.Name))) and not _or_form(st.value):
             # `x = a if c else b`  ==  `if c: x = a` / `else: x = b`  (keeps terms free of conditionals)
             mk = lambda v: ast.copy_location(ast.Assign(targets=st.targets, value=v), st)  # noqa: E731
             synth = ast.copy_location(ast.If(test=st.value.test, body=[mk(st.value.body)], orelse=[mk(st.value.orelse)]), st)
@@ -1196,9 +1213,8 @@ class _Builder:
     def s_AnnAssign(self, st, p):
         if st.value is None:
             return [p]
-        v = self._new_or(st.value, self.ex(st.value, p), st.lineno)
-        self.assign(st.target, v, p, st.lineno)
-        return [p]
+        # `x: T = v` is `x = v`: the same normal forms (conditional split, helper inlining, fold desugaring) apply
+        return self.s_Assign(ast.copy_location(ast.Assign(targets=[st.target], value=st.value), st), p)
 
     def s_AugAssign(self, st, p):
         from .terms import BINOPS
@@ -1324,6 +1340,9 @@ class _Builder:
         if op(test) == "cmp" and test[1] in ("is", "==") and any(is_const(x, None) for x in (test[2], test[3])) and any(op(x) in ("tuple", "list", "dict", "set", "concat", "new", "comp") for x in (test[2], test[3])):
             # a freshly built display / string / container is not None
             return then_fn([p]) if not pol else else_fn([p])
+        if op(test) == "cmp" and test[1] in ("is", "==") and any(is_const(x, None) for x in (test[2], test[3])) and any(self._is_callable_object(x) for x in (test[2], test[3])):
+            # nor is a function, a class, a lambda, a partial application or a bound method of self
+            return then_fn([p]) if not pol else else_fn([p])
         if _pure_test(test, self.fn):
             # the same value-level test was already decided on this path: only the consistent arm is feasible
             for ev in p.events:
@@ -1372,10 +1391,20 @@ class _Builder:
                     out.discard(name)
         return out
 
-    def _gconst_display(self, t):
+    def _gconst_display(self, t, loop=None):
         """A module-level constant that is a short literal tuple/list display (a dispatch table): its elements."""
         mod = self.model.modules.get(t[1])
         node = mod.constants.get(t[2]) if mod is not None else None
+        # a table of attribute NAMES is code too when the loop reflects on them: getattr(x, name) / setattr(x, name, v)
+        if loop is not None and isinstance(loop.target, ast.Name) and isinstance(node, (ast.Tuple, ast.List)) and 0 < len(node.elts) <= 8 and all(isinstance(x, ast.Constant) and isinstance(x.value, str) and x.value.isidentifier() for x in node.elts):
+            var = loop.target.id
+            reflects = any(
+                isinstance(n, ast.Call) and isinstance(n.func, ast.Name) and n.func.id in ("getattr", "setattr", "hasattr", "delattr") and len(n.args) >= 2 and isinstance(n.args[1], ast.Name) and n.args[1].id == var
+                for b in loop.body
+                for n in ast.walk(b)
+            )
+            if reflects:
+                return ("tuple", tuple(("const", x.value) for x in node.elts))
         # only tables of code (functions / classes, possibly in tuples): plain data such as a
         # tuple of strings stays a loop
         def codeish(x) -> bool:
@@ -1444,8 +1473,39 @@ class _Builder:
             for n in assigned - inv:
                 p.env[n] = ("phi", n, oid)
             return [p]
+        if op(it) == "comp" and it[1] == "gen" and len(it[3]) == 1 and not st.orelse:
+            # for x in (E(c) for c in cs if f(c)): body   ==   for c in cs: if f(c): x = E(c); body
+            # (a generator only: the elements of a LIST comprehension live on in the list, and what the loop does
+            # to them shows there)
+            ctgt, csrc, cifs = it[3][0]
+            oid = self.low.fresh()
+            assigned = self._assigned_names(st.body, p.env) | {x.id for x in ast.walk(st.target) if isinstance(x, ast.Name)}
+
+            def run(env):
+                paths = [Path([], env, None)]
+                for c in cifs:
+                    def skip(qs):
+                        for q in qs:
+                            q.out = ("continue",)
+                        return qs
+
+                    paths = [r for q in paths for r in (self._branch2(q, c, True, st.lineno, lambda qs: qs, skip) if q.out is None else [q])]
+                out = []
+                for q in paths:
+                    if q.out is not None:
+                        out.append(q)
+                        continue
+                    self.low.bind_target(st.target, q.env, it[2])
+                    out += self.block(st.body, [q], True)
+                return out
+
+            body_paths, inv = self._loop_body(p, assigned, oid, run)
+            p.events.append(self.E("loop", st.lineno, ctgt, csrc, oid, body_paths))
+            for n in assigned - inv:
+                p.env[n] = ("phi", n, oid)
+            return [p]
         if op(it) == "gconst":
-            lit = self._gconst_display(it)
+            lit = self._gconst_display(it, st)
             if lit is not None:
                 it = lit
         if op(it) in ("tuple", "list") and 0 < len(it[1]) <= 8 and not any(op(x) == "star" for x in it[1]) and not st.orelse:
